@@ -211,7 +211,13 @@ def build_runnable(r, g):
             mods.append(build_tree({"t": "ln", "shape": [d], "affine": r.get("ln_affine", True), "bias": r.get("ln_bias", True) if r.get("ln_affine", True) else True, "eps": 1e-5}, g))
         mods.append(build_tree({"t": "linear", "i": d, "o": r["h"], "bias": r["bias"]}, g))
         if r.get("npbuf") and k == 0:
-            mods.append(NPScale(r["h"]))
+            np0 = NPScale(r["h"])
+            mods.append(np0)
+        elif r.get("npbuf") and k == 1:
+            # the SAME buffer object registered in a second module (one rotary table shared by every layer)
+            np1 = NPScale(r["h"])
+            np1._buffers["k"] = np0.k
+            mods.append(np1)
         mods.append(acts[r["act"]]())
         d = r["h"]
     mods.append(build_tree({"t": "linear", "i": d, "o": r["o"], "bias": r["bias"]}, g))
